@@ -27,6 +27,8 @@ func cmpStmt(want m.Result, got *stmtObs, query bool) string {
 	switch {
 	case want.Err != got.Err:
 		return "outcome"
+	case want.Err != "":
+		return "" // a failed statement aborts the transaction; how far it got before failing depends on the scan order
 	case query && !m.RowsEqual(want.Rows, got.Rows):
 		return "rows"
 	case want.Updated != got.Updated:
@@ -46,29 +48,79 @@ type verdict struct {
 }
 
 // quirks selects an attribution interpreter (the zero value is the reference one).
-type quirks struct{ keep bool }
+type quirks struct{ keep, revisit bool }
 
 const (
-	sigKeep = "sqltx/rollback-to-savepoint-keeps-writes"
-	sigSnap = "sqltx/snapshot-not-fixed-across-indexes"
+	sigKeep    = "sqltx/rollback-to-savepoint-keeps-writes"
+	sigSnap    = "sqltx/snapshot-not-fixed-across-indexes"
+	sigRevisit = "sqltx/update-revisits-rows-moved-in-scanned-index"
 )
 
 func (q quirks) sigs() []string {
+	var out []string
 	if q.keep {
-		return []string{sigKeep}
+		out = append(out, sigKeep)
 	}
-	return nil
+	if q.revisit {
+		out = append(out, sigRevisit)
+	}
+	return out
+}
+
+// movesRowsInScannedIndex: an UPDATE that reaches its rows through a secondary index (named,
+// or chosen because of an equality on its leading column) and changes a column of that
+// index. Attribution interpreter `revisit`: such a statement may report up to twice the
+// rows it changed (a row moved ahead of the scan position is met again).
+func movesRowsInScannedIndex(s *m.Stmt, sch *m.Schema) bool {
+	if s.Kind != m.Update || sch == nil {
+		return false
+	}
+	for _, ix := range indexes(sch) {
+		cols := strings.Split(ix, ", ")
+		uses := s.Hint == ix
+		if s.Hint == "" {
+			for _, c := range s.Where {
+				uses = uses || (c.Col == cols[0] && (c.Op == "=" || c.Op == "isnull"))
+			}
+		}
+		if !uses {
+			continue
+		}
+		for _, a := range s.Set {
+			for _, c := range cols {
+				if a.Col == c {
+					return true
+				}
+			}
+		}
+	}
+	return false
 }
 
 func (q quirks) begin(snapshot *m.DB) *m.Tx { return m.Begin(snapshot, q.keep) }
 
 // candidates lists the attribution interpreters that can differ from the reference one for this program.
 func candidates(o *txObs) []quirks {
+	var out []quirks
 	if o.Prog.RBAfterDML {
-		return []quirks{{keep: true}}
+		out = append(out, quirks{keep: true})
 	}
-	return nil
+	for _, s := range o.Prog.Stmts {
+		if movesRowsInScannedIndex(s, schemaOf[s.Table]) {
+			n := len(out)
+			out = append(out, quirks{revisit: true})
+			for _, q := range out[:n] {
+				q.revisit = true
+				out = append(out, q)
+			}
+			break
+		}
+	}
+	return out
 }
+
+// schemaOf: the tables of the case under judgement (one case per process at a time).
+var schemaOf map[string]*m.Schema
 
 // explain interprets o's program on snapshot and compares every observation not skipped.
 func explain(o *txObs, snapshot *m.DB, q quirks, skip func(i int) bool) verdict {
@@ -76,8 +128,13 @@ func explain(o *txObs, snapshot *m.DB, q quirks, skip func(i int) bool) verdict 
 	p := o.Prog
 	if p.Script {
 		var res m.Result
+		slack := 0
 		for i, s := range p.Stmts {
+			before := tx.Updated
 			res = tx.Exec(s)
+			if q.revisit && movesRowsInScannedIndex(s, schemaOf[s.Table]) {
+				slack += res.Updated - before
+			}
 			if tx.Aborted {
 				if !o.Committed && o.EndErr == res.Err {
 					return verdict{ok: true, db: nil}
@@ -91,6 +148,9 @@ func explain(o *txObs, snapshot *m.DB, q quirks, skip func(i int) bool) verdict 
 			}
 			return verdict{at: len(p.Stmts), aspect: "outcome", want: "script succeeds"}
 		}
+		if o.Final.Updated > res.Updated && o.Final.Updated <= res.Updated+slack {
+			res.Updated = o.Final.Updated // attribution interpreter `revisit`: follow the engine's count
+		}
 		if a := cmpStmt(res, &o.Final, false); a != "" {
 			return verdict{at: len(p.Stmts), aspect: a, want: fmt.Sprintf("updated=%d first=%v last=%v", res.Updated, res.First, res.Last)}
 		}
@@ -102,7 +162,18 @@ func explain(o *txObs, snapshot *m.DB, q quirks, skip func(i int) bool) verdict 
 			return verdict{at: i, aspect: "outcome", want: "transaction aborted by the previous statement"}
 		}
 		s := p.Stmts[i]
+		before := tx.Updated
 		res = tx.Exec(s)
+		if q.revisit && res.Err == "" && o.Stmts[i].Err == "" && movesRowsInScannedIndex(s, schemaOf[s.Table]) {
+			prevObs := 0
+			if i > 0 {
+				prevObs = o.Stmts[i-1].Updated
+			}
+			if dm, do := res.Updated-before, o.Stmts[i].Updated-prevObs; do > dm && do <= 2*dm {
+				tx.Updated = before + do // follow the engine's count
+				res.Updated = tx.Updated
+			}
+		}
 		if skip != nil && skip(i) && res.Err == o.Stmts[i].Err {
 			continue
 		}
@@ -477,6 +548,7 @@ func (k *checker) perUnit(o *txObs, lo uint64, q quirks) bool {
 
 // checkCase is the oracle of one case (one database, one concurrent batch of sessions).
 func checkCase(c *fw.Ctx, d *db, tag string, nsess int, base uint64, init *m.DB, obs []*txObs) {
+	schemaOf = d.sch
 	k := &checker{c: c, d: d, tag: tag, nsess: nsess, states: map[uint64]*m.DB{base: init}, base: base}
 	var sb strings.Builder
 	for _, o := range obs {
